@@ -94,7 +94,7 @@ class Gen:
         if kind == 'int' or (q.denominator == 1 and self.rng.random() < 0.5):
             if q.denominator == 1:
                 return {'ty': 'int', 'v': str(int(q))}
-        if self.style == 'float':
+        if self.style == 'float' or (self.style == 'mixed' and self.rng.random() < 0.5):
             return {'ty': 'float', 'v': float(q).hex()}
         return {'ty': 'time', 'v': str(q)}
 
@@ -335,7 +335,55 @@ class Gen:
         return {'t': 'map', 'm': {x: e}, 'body': body}
 
     # ---- composite
+    def meas(self, scope):
+        """measurement declarations (name, begin, length): durations must not depend on them"""
+        rng = self.rng
+        out = []
+        for _ in range(rng.choice([1, 1, 2])):
+            ln = rng.choice([1, 2, 'p'])
+            if ln == 'p':
+                ln = expr_str(var(self.time_param(scope)))
+            out.append([rng.choice(['m', 'n']), rng.choice([0, 0, 1]), ln])
+        return out
+
+    def constraint(self, scope):
+        """[lhs, rhs] of a constraint lhs <= rhs; mostly satisfied; operands may be a float and a TimeType of the same
+        decimal (the binary reading decides)"""
+        rng = self.rng
+        r = rng.random()
+        if r < 0.3 and scope['idx']:
+            return [var(rng.choice(scope['idx'])), lit(rng.choice([2, 5, 100]))]
+        if r < 0.55:
+            a = var(self.time_param(scope))
+            return [a, op('add', copy.deepcopy(a), lit(rng.choice([0, 1])))]
+        if r < 0.75:
+            return [lit(0), var(self.time_param(scope))]
+        if r < 0.9:
+            d = F(rng.choice(['0.1', '0.3', '0.7', '0.2', '1.1', '0.25']))
+            tys = rng.choice([('time', 'float'), ('float', 'time'), ('float', 'float'), ('time', 'time')])
+            names = []
+            for ty in tys:
+                name = self.fresh('t')
+                self.params[name] = {'ty': 'float', 'v': float(d).hex()} if ty == 'float' else {'ty': 'time', 'v': str(d)}
+                self.vals[name] = d
+                names.append(var(name))
+            return names
+        return [var(self.time_param(scope)), var(self.time_param(scope))]
+
     def tree(self, scope, chans, depth, force=None):
+        t = self.tree0(scope, chans, depth, force)
+        rng = self.rng
+        r = rng.random()
+        if t['t'] in ('seq', 'rep', 'for', 'const', 'func', 'multi') and r < 0.12:
+            t['meas'] = self.meas(scope)
+        r = rng.random()
+        if r < 0.07:
+            t = {'t': 'constr', 'cs': [self.constraint(scope) for _ in range(rng.choice([1, 1, 2]))], 'body': t}
+        elif r < 0.14:
+            t = {'t': 'single', 'body': t}
+        return t
+
+    def tree0(self, scope, chans, depth, force=None):
         rng = self.rng
         self.budget -= 1
         r = rng.random()
@@ -375,11 +423,72 @@ def gen_template_case(rng, tier, style, depth):
     nch = rng.choice([1, 1, 2, 2, 3])
     tpl = g.tree({'times': [], 'idx': []}, list(range(nch)), depth)
     case = {'kind': 'tpl', 'style': style, 'tpl': tpl, 'params': g.params}
+    decorate(case, rng)
     if rng.random() < 0.04 and g.params:
         used = sorted(free_params(tpl))
         if used:
             case['params'] = {k: v for k, v in g.params.items() if k != rng.choice(used)}
     return case
+
+
+def decorate(case, rng):
+    """harness-only extras that must not change any duration: channel / measurement renaming at the root and in
+    create_program, volatile repetition counts"""
+    tpl = case['tpl']
+    if rng.random() < 0.2:
+        chans = sorted(channels_of(tpl))
+        case['rootmap'] = {c: 'k' + c[1:] for c in chans}
+        if rng.random() < 0.5:
+            case['cpmap'] = {'k' + c[1:]: 'z' + c[1:] for c in chans}
+        case['measmap'] = rng.choice([{'m': 'mm'}, {'m': None}, {'n': 'm2', 'm': 'm1'}])
+    if rng.random() < 0.25 and 'single' not in kinds_of(tpl, set()):
+        cnt, other = set(), set()
+        uses(tpl, cnt, other)
+        vol = sorted(x for x in cnt - other if case['params'].get(x, {}).get('ty') == 'int')
+        if vol:
+            case['volatile'] = vol
+
+
+def uses(t, cnt, other):
+    """names used as a bare repetition count / anywhere else"""
+    def ev(e, acc):
+        if e is None:
+            return
+        if 'var' in e:
+            acc.add(e['var'])
+        for key in ('a', 'b'):
+            if key in e:
+                ev(e[key], acc)
+    for key in ('d', 'start', 'stop', 'step', 'declared'):
+        if t.get(key) is not None:
+            ev(t[key], other)
+    if 'count' in t:
+        if set(t['count']) == {'var'}:
+            cnt.add(t['count']['var'])
+        else:
+            ev(t['count'], other)
+    if t['t'] == 'table':
+        for ts in t['chans'].values():
+            for e in ts:
+                ev(e, other)
+    if t['t'] == 'point':
+        for e in t['times']:
+            ev(e, other)
+    if t['t'] == 'map':
+        for e in t['m'].values():
+            ev(e, other)
+    for lr in t.get('cs', []):
+        ev(lr[0], other)
+        ev(lr[1], other)
+    for m in t.get('meas', []):
+        for x in m[1:]:
+            if isinstance(x, str):
+                other.add(x)
+    for c in t.get('subs', []):
+        uses(c, cnt, other)
+    for key in ('body', 'lhs', 'rhs'):
+        if key in t:
+            uses(t[key], cnt, other)
 
 
 def free_params(t, bound=frozenset()):
@@ -409,6 +518,8 @@ def free_params(t, bound=frozenset()):
         return ev(t.get('declared')) | set().union(*[free_params(c, bound) for c in t['subs']])
     if k == 'arith':
         return free_params(t['lhs'], bound) | free_params(t['rhs'], bound)
+    if k == 'constr':
+        return set().union(*[ev(l) | ev(r) for l, r in t['cs']]) | free_params(t['body'], bound)
     return free_params(t['body'], bound)
 
 
@@ -433,8 +544,101 @@ def kinds_of(t, acc):
     return acc
 
 
+def tparam(d, ty):
+    d = F(d)
+    if ty == 'float':
+        return {'ty': 'float', 'v': float(d).hex()}
+    if ty == 'int':
+        return {'ty': 'int', 'v': str(int(d))}
+    return {'ty': ty, 'v': str(d)}
+
+
+def gen_for_case(a, b, s, variant):
+    """a real ForLoopPT over range(a, b, s); body ConstantPT of duration (i + 6) * t (never negative for |i| <= 5)"""
+    params = {'t_1': tparam('0.1', 'time')}
+    dur = op('mul', op('add', var('i_1'), lit(6)), var('t_1'))
+    body = {'t': 'const', 'd': dur, 'v': {'c00': 1}}
+    if variant % 4 == 1:
+        body = {'t': 'seq', 'subs': [body, {'t': 'rep', 'count': op('add', var('i_1'), lit(5)),
+                                            'body': {'t': 'const', 'd': var('t_1'), 'v': {'c00': 2}}}]}
+    if variant % 2 == 0:
+        bounds = [lit(a), lit(b), lit(s)]
+    else:
+        params.update({'r_a': tparam(a, 'int'), 'r_b': tparam(b, 'int' if variant % 3 else 'time'), 'r_s': tparam(s, 'int')})
+        bounds = [var('r_a'), var('r_b'), var('r_s')]
+    tpl = {'t': 'for', 'idx': 'i_1', 'start': bounds[0], 'stop': bounds[1], 'step': bounds[2], 'body': body}
+    if variant % 5 == 3:
+        tpl = {'t': 'single', 'body': tpl}
+    if variant % 7 == 4:
+        tpl = {'t': 'seq', 'subs': [tpl, {'t': 'const', 'd': var('t_1'), 'v': {'c00': 0}}], 'meas': [['m', 0, 1]]}
+    return {'kind': 'tpl', 'style': 'exact', 'tpl': tpl, 'params': params, 'family': 'for_box'}
+
+
+def gen_mixed_case(rng):
+    """the same decimal once as a float and once as a TimeType at the places where the code compares raw values"""
+    d = rng.choice(['0.1', '0.3', '0.7', '0.2', '1.1', '2.2', '0.25', '3'])
+    tys = rng.choice([('time', 'float'), ('float', 'time'), ('float', 'float'), ('time', 'time')])
+    params = {'t_1': tparam(d, tys[0]), 't_2': tparam(d, tys[1])}
+    shape = rng.randrange(7)
+    c0 = lambda e: {'t': 'const', 'd': e, 'v': {'c00': 1}}
+    if shape == 0:      # entry times of one table channel
+        tpl = {'t': 'table', 'chans': {'c00': [var('t_1'), var('t_2')]}, 'v': {'c00': [0, 1]}, 'interp': {'c00': ['hold', 'linear']}}
+    elif shape == 1:    # last entries of two channels (max, padding)
+        tpl = {'t': 'table', 'chans': {'c00': [var('t_1')], 'c01': [lit(0), var('t_2')]}, 'v': {'c00': [1], 'c01': [0, 1]},
+               'interp': {'c00': ['hold'], 'c01': ['hold', 'hold']}}
+    elif shape == 2:    # parallel parts
+        tpl = {'t': 'multi', 'subs': [c0(var('t_1')), {'t': 'const', 'd': var('t_2'), 'v': {'c01': 1}}],
+               'declared': rng.choice([None, var('t_2'), var('t_1')])}
+    elif shape == 3:    # constraint
+        tpl = {'t': 'constr', 'cs': [[var('t_1'), var('t_2')]], 'body': {'t': 'seq', 'subs': [c0(var('t_1')), c0(var('t_2'))]}}
+    elif shape == 4:    # float repetition count / range bounds
+        params['n_1'] = tparam(rng.choice(['3', '0', '2']), 'float')
+        tpl = {'t': 'rep', 'count': var('n_1'), 'body': {'t': 'seq', 'subs': [c0(var('t_1')), c0(var('t_2'))]}}
+    elif shape == 5:
+        params.update({'r_a': tparam('0', 'float'), 'r_b': tparam(rng.choice(['3', '4']), 'float'), 'r_s': tparam('2', 'float')})
+        tpl = {'t': 'for', 'idx': 'i_1', 'start': var('r_a'), 'stop': var('r_b'), 'step': var('r_s'),
+               'body': {'t': 'seq', 'subs': [c0(var('t_1')), {'t': 'rep', 'count': var('i_1'), 'body': c0(var('t_2'))}]}}
+    else:               # atomic arithmetic of a float and a TimeType duration
+        tpl = {'t': 'arith', 'lhs': c0(var('t_1')), 'rhs': c0(var('t_2')), 'op': '+'}
+    if rng.random() < 0.3:
+        tpl = {'t': 'rep', 'count': lit(1000), 'body': tpl}
+    return {'kind': 'tpl', 'style': 'mixed', 'tpl': tpl, 'params': params, 'family': 'mixed'}
+
+
+def gen_frac_case(rng):
+    """a parameter of a type evaluate_numeric rejects (fractions.Fraction, gmpy2.mpq), used bare or with int literals"""
+    ty = rng.choice(['frac', 'mpq'])
+    shape = rng.randrange(4)
+    params = {'t_1': tparam(rng.choice(['0.1', '1.5', '2']), ty), 'n_1': tparam('3', 'int'), 't_2': tparam('0.5', 'time')}
+    e = rng.choice([var('t_1'), op('mul', var('t_1'), lit(2)), op('add', var('t_1'), lit(1))])
+    c0 = {'t': 'const', 'd': e, 'v': {'c00': 1}}
+    if shape == 0:
+        tpl = {'t': 'rep', 'count': var('n_1'), 'body': c0}
+    elif shape == 1:
+        params['n_1'] = tparam('3', ty)
+        params['t_1'] = tparam('0.1', 'time')
+        tpl = {'t': 'rep', 'count': var('n_1'), 'body': {'t': 'const', 'd': var('t_1'), 'v': {'c00': 1}}}
+    elif shape == 2:
+        tpl = {'t': 'seq', 'subs': [{'t': 'const', 'd': var('t_2'), 'v': {'c00': 1}}, c0]}
+    else:           # the rejected parameter is given but not used
+        tpl = {'t': 'rep', 'count': var('n_1'), 'body': {'t': 'const', 'd': var('t_2'), 'v': {'c00': 1}}}
+    return {'kind': 'tpl', 'style': 'exact', 'tpl': tpl, 'params': params, 'family': 'frac'}
+
+
 def gen_cases(rng, tier, ctx):
     cases = []
+    # real ForLoopPT over a box of ranges (exhaustive in thorough)
+    k = 0
+    for a in range(-4, 5):
+        for b in range(-4, 5):
+            for st in (1, 2, 3, -1, -2, -3):
+                k += 1
+                if tier == 'thorough' or rng.random() < 0.08:
+                    cases.append(gen_for_case(a, b, st, k))
+    for _ in range({'quick': 40, 'thorough': 400}[tier]):
+        cases.append(gen_mixed_case(rng))
+    for _ in range({'quick': 12, 'thorough': 60}[tier]):
+        cases.append(gen_frac_case(rng))
     n = {'quick': 1, 'thorough': 12}[tier]
     maxd = {'quick': 3, 'thorough': 4}[tier]
     # range cases: a small box (exhaustive in thorough)
@@ -459,7 +663,8 @@ def gen_cases(rng, tier, ctx):
                     tpl = {'t': 'rep', 'count': lit(3), 'body': {'t': 'seq', 'subs': [tpl, {'t': 'const', 'd': var(t), 'v': {'c00': 2}}]}}
                 cases.append({'kind': 'tpl', 'style': style, 'tpl': tpl, 'params': g.params})
     for _ in range(520 * n):
-        style = 'exact' if rng.random() < 0.6 else 'float'
+        r = rng.random()
+        style = 'exact' if r < 0.55 else 'float' if r < 0.9 else 'mixed'
         cases.append(gen_template_case(rng, tier, style, rng.choice([1, 2, 2, 3, 3, maxd])))
     return cases
 
@@ -490,39 +695,81 @@ def expr_arg(e):
     return expr_str(e)
 
 
-def build(t):
+def build(t, singles=None, constraints=None):
+    """the qupulse template of a JSON tree; `singles` collects the templates to be rendered as one waveform;
+    `constraints` are attached to this node (its class must take parameter_constraints)"""
     from qupulse.pulses import (ConstantPT, FunctionPT, TablePT, PointPT, SequencePT, RepetitionPT, ForLoopPT, MappingPT,
                                 AtomicMultiChannelPT, TimeReversalPT)
     from qupulse.pulses.arithmetic_pulse_template import ArithmeticAtomicPulseTemplate, ArithmeticPulseTemplate
+    if singles is None:
+        singles = []
     k = t['t']
+    kw = {}
+    if t.get('meas'):
+        kw['measurements'] = [tuple(m) for m in t['meas']]
+    if constraints:
+        kw['parameter_constraints'] = list(constraints)
+    sub = lambda c: build(c, singles)
     if k == 'const':
-        return ConstantPT(expr_arg(t['d']), dict(t['v']))
+        assert not constraints
+        return ConstantPT(expr_arg(t['d']), dict(t['v']), **kw)
     if k == 'func':
-        return FunctionPT(t['expr'], expr_arg(t['d']), channel=t['ch'][0])
+        return FunctionPT(t['expr'], expr_arg(t['d']), channel=t['ch'][0], **kw)
     if k == 'table':
         return TablePT({c: [(expr_arg(e), v, ip) for e, v, ip in zip(ts, t['v'][c], t['interp'][c])]
-                        for c, ts in t['chans'].items()}, consistency_check=False)
+                        for c, ts in t['chans'].items()}, consistency_check=False, **kw)
     if k == 'point':
-        return PointPT([(expr_arg(e), [v] * len(t['ch'])) for e, v in zip(t['times'], t['v'])], t['ch'])
+        return PointPT([(expr_arg(e), [v] * len(t['ch'])) for e, v in zip(t['times'], t['v'])], t['ch'], **kw)
     if k == 'seq':
-        return SequencePT(*[build(c) for c in t['subs']])
+        return SequencePT(*[sub(c) for c in t['subs']], **kw)
     if k == 'rep':
-        return RepetitionPT(build(t['body']), expr_arg(t['count']))
+        return RepetitionPT(sub(t['body']), expr_arg(t['count']), **kw)
     if k == 'for':
-        return ForLoopPT(build(t['body']), t['idx'], (expr_arg(t['start']), expr_arg(t['stop']), expr_arg(t['step'])))
+        return ForLoopPT(sub(t['body']), t['idx'], (expr_arg(t['start']), expr_arg(t['stop']), expr_arg(t['step'])), **kw)
     if k == 'map':
-        return MappingPT(build(t['body']), parameter_mapping={x: expr_str(e) for x, e in t['m'].items()},
-                         allow_partial_parameter_mapping=True)
+        return MappingPT(sub(t['body']), parameter_mapping={x: expr_str(e) for x, e in t['m'].items()},
+                         allow_partial_parameter_mapping=True, **kw)
     if k == 'multi':
-        return AtomicMultiChannelPT(*[build(c) for c in t['subs']],
-                                    duration=None if t.get('declared') is None else expr_str(t['declared']))
+        return AtomicMultiChannelPT(*[sub(c) for c in t['subs']],
+                                    duration=None if t.get('declared') is None else expr_str(t['declared']), **kw)
+    if k == 'constr':
+        cs = ['(%s) <= (%s)' % (expr_str(l), expr_str(r)) for l, r in t['cs']]
+        if t['body']['t'] in ('func', 'table', 'point', 'seq', 'rep', 'for', 'map', 'multi') and not t['body'].get('wrapseq'):
+            return build(t['body'], singles, constraints=cs)
+        return SequencePT(sub(t['body']), parameter_constraints=cs)     # same program children as the body
+    if k == 'single':
+        obj = sub(t['body'])
+        singles.append(obj)
+        return obj
+    assert not kw
     if k == 'arith':
-        return ArithmeticAtomicPulseTemplate(build(t['lhs']), t['op'], build(t['rhs']))
+        return ArithmeticAtomicPulseTemplate(sub(t['lhs']), t['op'], sub(t['rhs']))
     if k == 'wrap':
-        return ArithmeticPulseTemplate(build(t['body']), '*', 2)
+        return ArithmeticPulseTemplate(sub(t['body']), '*', 2)
     if k == 'rev':
-        return TimeReversalPT(build(t['body']))
+        return TimeReversalPT(sub(t['body']))
     raise ValueError(k)
+
+
+def build_case(case):
+    """-> (root template, set for to_single_waveform, extra create_program keyword arguments)"""
+    from qupulse.pulses import MappingPT
+    singles = []
+    pt = build(case['tpl'], singles)
+    kw = {}
+    if case.get('rootmap'):
+        mm = {k: v for k, v in (case.get('measmap') or {}).items() if k in pt.measurement_names and v is not None}
+        pt = MappingPT(pt, channel_mapping=dict(case['rootmap']), measurement_mapping=mm,
+                       allow_partial_parameter_mapping=True)
+        if case.get('cpmap'):
+            kw['channel_mapping'] = dict(case['cpmap'])
+        names = pt.measurement_names
+        kw['measurement_mapping'] = {n: (None if (case.get('measmap') or {}).get(n, 1) is None else n + '_x') for n in names}
+    if singles:
+        kw['to_single_waveform'] = set(singles)
+    if case.get('volatile'):
+        kw['volatile'] = set(case['volatile'])
+    return pt, kw
 
 
 def py_param(p, decimal=False):
@@ -532,6 +779,12 @@ def py_param(p, decimal=False):
     if p['ty'] == 'time':
         f = F(p['v'])
         return TimeType.from_fraction(f.numerator, f.denominator)
+    if p['ty'] == 'frac':
+        return F(p['v'])
+    if p['ty'] == 'mpq':
+        import gmpy2
+        f = F(p['v'])
+        return gmpy2.mpq(f.numerator, f.denominator)
     x = float.fromhex(p['v'])
     return TimeType.from_float(x) if decimal else x
 
@@ -588,7 +841,8 @@ def run_impl(case):
             return {'crash': '%s: %s' % (type(e).__name__, e)}
     from qupulse.pulses.parameters import ParameterNotProvidedException
     from qupulse.pulses.repetition_pulse_template import ParameterNotIntegerException
-    from qupulse.expressions import ExpressionVariableMissingException
+    from qupulse.expressions import ExpressionVariableMissingException, NonNumericEvaluation
+    from qupulse.pulses.parameters import ParameterConstraintViolation
     from qupulse.program.loop import to_waveform
     import numpy
     out = {}
@@ -596,7 +850,7 @@ def run_impl(case):
         warnings.simplefilter('ignore')
         try:
             with vlib.time_limit(20):
-                pt = build(case['tpl'])
+                pt, cp_kw = build_case(case)
         except vlib.Timeout:
             return {'hang': True}
         except Exception as e:
@@ -628,11 +882,12 @@ def run_impl(case):
         try:
             with vlib.time_limit(20):
                 try:
-                    prog = pt.create_program(parameters={k: py_param(p) for k, p in case['params'].items()})
+                    prog = pt.create_program(parameters={k: py_param(p) for k, p in case['params'].items()}, **cp_kw)
                 except (ParameterNotProvidedException, ExpressionVariableMissingException, KeyError):
                     out['prog'] = {'err': 'missing'}
                     return out
-                except (ValueError, AssertionError, ParameterNotIntegerException, ZeroDivisionError) as e:
+                except (ValueError, AssertionError, ParameterNotIntegerException, ZeroDivisionError,
+                        ParameterConstraintViolation, NonNumericEvaluation) as e:
                     out['prog'] = {'err': 'value', 'exc': type(e).__name__}
                     return out
                 if prog is None:
@@ -683,6 +938,9 @@ def names_of(case):
             for x, e in t['m'].items():
                 acc.add(x)
                 ev(e)
+        for lr in t.get('cs', []):
+            ev(lr[0])
+            ev(lr[1])
         for c in t.get('subs', []):
             walk(c)
         for key in ('body', 'lhs', 'rhs'):
@@ -697,6 +955,8 @@ def g_value(p):
         return '(VInt %s)' % gZ(int(p['v']))
     if p['ty'] == 'time':
         return '(VTime %s)' % gQ(F(p['v']))
+    if p['ty'] in ('frac', 'mpq'):
+        return '(VBad %s)' % gQ(F(p['v']))
     x = float.fromhex(p['v'])
     return '(VFloat %s %s)' % (gQ(F(x)), gQ(F(repr(x))))
 
@@ -732,7 +992,7 @@ def channels_of(t):
 
 def g_pt(t, ids):
     k = t['t']
-    rank = lambda: gZ(int(min(channels_of(t))[1:]))
+    rank = lambda: gZ(int(min(channels_of(t))[1:3]))
     if k == 'const':
         return '(PAtom KConst %s %s)' % (rank(), g_expr(t['d'], ids))
     if k == 'func':
@@ -762,6 +1022,11 @@ def g_pt(t, ids):
         return '(PWrap %s)' % g_pt(t['body'], ids)
     if k == 'rev':
         return '(PRev %s)' % g_pt(t['body'], ids)
+    if k == 'constr':
+        return '(PConstr %s %s)' % (vlib.glist(lambda lr: '(%s, %s)' % (g_expr(lr[0], ids), g_expr(lr[1], ids)), t['cs']),
+                                    g_pt(t['body'], ids))
+    if k == 'single':
+        return '(PSingle %s)' % g_pt(t['body'], ids)
     raise ValueError(k)
 
 
@@ -798,6 +1063,11 @@ def histogram_keys(case, obs):
         return ['range', 'range:empty' if not obs.get('range') else 'range:len=%s' % min(len(obs['range']), 5),
                 'range:step%s' % ('+' if case['s'] > 0 else '-')]
     keys = ['tpl', 'style:' + case['style'], 'depth:%d' % depth_of(case['tpl'])]
+    keys += ['family:' + case['family']] if case.get('family') else []
+    keys += ['extra:' + x for x in ('rootmap', 'cpmap', 'volatile') if case.get(x)]
+    if '"meas"' in __import__('json').dumps(case['tpl']):
+        keys.append('extra:measurements')
+    keys += sorted({'ptype:' + p['ty'] for p in case['params'].values()})
     keys += ['node:' + k for k in sorted(kinds_of(case['tpl'], set()))]
     sp = c04_spec.spec(case)
     if sp[2]:
@@ -823,8 +1093,10 @@ def py_spec(case, obs):
     if sn is None or sn == 'float' or sn.startswith('exc:') or obs.get('sym') is None:
         return None
     import json
-    if '"flit"' in json.dumps(case['tpl']) or c04_spec.spec(case)[2]:
-        return None       # a float literal / float arithmetic takes part: sympy's own float arithmetic is not judged
+    js = json.dumps(case['tpl'])
+    if '"flit"' in js or c04_spec.spec(case)[2] or any('"k": %d' % k in js for k in (3, 5)):
+        return None       # a float literal / float arithmetic (also the literal 1/3, 1/5 in a branch the specification
+                          # never reaches) takes part: sympy's own float arithmetic is not judged
     if F(sn) != F(obs['sym']):
         return 'duration.evaluate_in_scope returned %s on exact arguments, the expression has the value %s' % (sn, obs['sym'])
     return None
